@@ -1,4 +1,5 @@
 mod dcmap;
+mod dcpkt;
 mod keyids;
 #[path = "../../h-core/src/util.rs"]
 mod util;
@@ -11,6 +12,8 @@ fn main() {
     let cmd = args.first().map(|s| s.as_str()).unwrap_or("");
     let rest = &args[1.min(args.len())..];
     let out = match cmd {
+        "dcpkt-record" => dcpkt::record(rest),
+        "dcctl-record" => dcpkt::control(rest),
         "keyids-replay" => keyids::replay(rest),
         "keyids-record" => keyids::record(rest),
         _ => {
